@@ -395,11 +395,21 @@ pub mod tokio {
         use vstd::prelude::*;
         use super::super::*;
         pub trait AsyncRead { }
+        // everything a reader (socket, pipe) will deliver from now until its end
+        pub uninterp spec fn incoming_of<R>(r: R) -> Seq<u8>;
+        // tokio::io::stdout() and AsyncWriteExt on it: bytes go to the process's standard output, in order; an error may have taken a prefix
+        pub struct Stdout { pub x: u8 }
+        #[verifier::external_body] pub fn stdout() -> Stdout { unimplemented!() }
+        impl Stdout {
+            #[verifier::external_body] pub async fn write_all(&mut self, b: &[u8], Tracked(w): Tracked<&mut World>) -> (r: Result<(), std::io::Error>)
+                ensures r is Ok ==> final(w).stdout_bytes == old(w).stdout_bytes + b@, final(w).tail == old(w).tail { unimplemented!() }
+            #[verifier::external_body] pub async fn flush(&mut self) -> (r: Result<(), std::io::Error>) { unimplemented!() }
+        }
         // a buffered byte stream: `consumed` is what reads have taken so far, `rest` what is still to come
         pub struct BufReader<R> { pub ghost consumed: Seq<u8>, pub ghost rest: Seq<u8>, pub r: R }
         impl<R> BufReader<R> {
-            // BufReader::new does no I/O; what the peer will send is unconstrained
-            #[verifier::external_body] pub fn new(r: R) -> (b: BufReader<R>) ensures b.consumed == Seq::<u8>::empty() { unimplemented!() }
+            // BufReader::new does no I/O; what the peer will send is unconstrained - it is whatever the underlying reader had still to deliver
+            #[verifier::external_body] pub fn new(r: R) -> (b: BufReader<R>) ensures b.consumed == Seq::<u8>::empty(), b.rest == incoming_of(r) { unimplemented!() }
             // AsyncBufReadExt::read_until: a completed read appends the bytes it consumed to buf; Ok(0) only at end of stream
             #[verifier::external_body]
             pub async fn read_until(&mut self, d: u8, buf: &mut Vec<u8>) -> (res: Result<usize, std::io::Error>)
@@ -465,6 +475,11 @@ pub mod tokio {
         use vstd::prelude::*;
         pub struct TcpStream { pub x: u8 }
         pub struct TcpListener { pub x: u8 }
+        pub struct SocketAddr { pub x: u8 }
+        impl TcpListener {
+            // accept: the next client of the listener, whoever it is; may fail for any reason
+            #[verifier::external_body] pub async fn accept(&self) -> (r: Result<(TcpStream, SocketAddr), std::io::Error>) { unimplemented!() }
+        }
         impl TcpStream {
             // connecting to the optional log listener: may fail for any reason
             #[verifier::external_body] pub async fn connect_addr(addr: &String) -> (r: Result<TcpStream, std::io::Error>) { unimplemented!() }
@@ -497,6 +512,8 @@ impl tokio::sync::MutexGuard<tokio::net::TcpStream> {
 // an operation that fails for a reason visible in `fs` (create_new on an existing file, open of a missing file) does not count.
 pub uninterp spec fn path_with_ext(p: Seq<char>, ext: Seq<char>) -> Seq<char>;
 pub uninterp spec fn json_enc<T>(t: T) -> Seq<u8>;
+// ASSUMED (serde: `impl Serialize for &T` delegates to T): a reference serialises as what it refers to
+#[verifier::external_body] pub proof fn axiom_json_enc_ref<T>(v: &T) ensures json_enc::<&T>(v) == json_enc::<T>(*v) { }
 // the run pointer is recoverable: absent or old content (as at entry), or the complete new content
 pub open spec fn recoverable(w: World) -> bool {
     if w.fs.dom().contains(w.ptr) { Some(w.fs[w.ptr]) == w.last || w.fs[w.ptr] == w.ptr_new } else { w.last is None }
